@@ -78,6 +78,57 @@ theorem restart_redelivers_tail (n start : Nat) (hs : start ≤ n) (tr : List L)
   · simp only [step, restart]; exact h.descPos
   · simp only [step, restart]; exact h.descPos
 
+/-- **`restart_redelivery_bounded`** (explicit bound for `restart_redelivers_tail`). At every moment the worker's
+position is the persisted position plus the number of events accepted since the last persist (or restart). So a
+crash re-delivers exactly the events of the batches accepted since the last persist — `[persisted, pos)`,
+`accSince` of them; and a crash between the sink's accept and `setPosition` (one batch in flight) re-delivers
+those plus that one batch: `[persisted, pos + k')`, `k' = min k (n - pos)`. Nothing else is ever delivered twice:
+the new session starts exactly at `persisted`. -/
+theorem restart_redelivery_bounded (n start : Nat) (hs : start ≤ n) (tr : List L) (k : Nat) :
+    let s := run genCfg (init n start) tr
+    s.pos = s.persisted + s.accSince ∧
+    (step genCfg s .crash).sessionStart = s.persisted ∧ (step genCfg s .crash).all = s.all ∧
+    (step genCfg s (.crashAfterAccept k)).sessionStart = s.persisted ∧
+    (step genCfg s (.crashAfterAccept k)).all = s.all ++ List.range' s.pos (min k (s.n - s.pos)) := by
+  intro s
+  have h : FInv s := by
+    show FInv (run genCfg (init n start) tr)
+    rw [genCfg_eq]; exact finv_run tr _ (finv_init n start hs)
+  exact ⟨h.accEq, rfl, rfl, rfl, rfl⟩
+
+/-- **`drains_when_quiet`** (eventual completeness, bounded form). From any reachable state, if from now on every
+query answers a page of up to `k ≥ 1` events (the page limit) and the sink accepts — no faults, no growth, no stop —
+then after `m` iterations with `m · k ≥ n - pos` (e.g. `m = ⌈(n - pos)/k⌉`) the worker's position is the end of
+the partition, every event of the partition from the first start on has been accepted by the sink at least once,
+and the next persist stores the end position. -/
+theorem drains_when_quiet (n start : Nat) (hs : start ≤ n) (tr : List L) (k m : Nat) :
+    let s := run genCfg (init n start) tr
+    s.n - s.pos ≤ m * k →
+    let s' := run genCfg s (List.replicate m (.page k true))
+    s'.pos = s.n ∧ s'.n = s.n ∧ (∀ i, start ≤ i → i < s.n → i ∈ s'.all) ∧
+    (step genCfg s' .persist).persisted = s.n := by
+  intro s hm s'
+  have h : FInv s := by
+    show FInv (run genCfg (init n start) tr)
+    rw [genCfg_eq]; exact finv_run tr _ (finv_init n start hs)
+  have hp := run_pages genCfg k m s h.posLe
+  have hpos : s'.pos = s.n := by
+    show (run genCfg s (List.replicate m (.page k true))).pos = s.n
+    rw [hp.1]; have := h.posLe; rw [Nat.min_def]; split <;> omega
+  have h' : FInv s' := by
+    show FInv (run genCfg s (List.replicate m (.page k true)))
+    rw [genCfg_eq]; exact finv_run _ _ h
+  have hn : s'.n = s.n := hp.2
+  have hst : s'.start0 = start := by
+    show (run genCfg (run genCfg (init n start) tr) _).start0 = start
+    rw [run_start0, run_start0]; rfl
+  refine ⟨hpos, hn, ?_, ?_⟩
+  · intro i h1 h2
+    apply h'.cover i (by rw [hst]; exact h1)
+    have := h'.posHigh; omega
+  · show s'.desc = s.n
+    rw [h'.descPos, hpos]
+
 /-! ### what the theorems exclude (the two orders the code does not use) -/
 
 /-- position set before the sink accepted: a rejected batch followed by a stop leaves a position ahead of what was
@@ -101,5 +152,17 @@ example :
     s.all = [0, 1, 2, 3, 2, 3, 4] ∧ s.sess = [2, 3, 4] ∧ s.persisted = 2 ∧ s.pos = 5 := by decide
 
 example : (run genCfg (init 3 0) [.page 1000 true, .grow 2, .page 1000 true, .graceful]).sessionStart = 5 := by decide
+
+/-- 2 500 events, page limit 1 000: after a fault and a rejection, three quiet iterations reach the end -/
+example :
+    let s := run genCfg (init 2500 0) [.qTransport, .page 1000 false]
+    (run genCfg s (List.replicate 3 (.page 1000 true))).pos = 2500 := by decide
+
+/-- a crash with one batch in flight after a persist at 2: events 2,3 (accepted since the persist) and 4,5 (in
+flight) are at risk of re-delivery; the new session starts at 2 -/
+example :
+    let s := run genCfg (init 9 0) [.page 2 true, .persist, .page 2 true]
+    s.accSince = 2 ∧ (step genCfg s (.crashAfterAccept 2)).sessionStart = 2 ∧
+    (step genCfg s (.crashAfterAccept 2)).all = [0, 1, 2, 3, 4, 5] := by decide
 
 end Logrange.Props.C18
